@@ -47,7 +47,16 @@ func c20Classify(b []byte) (string, string) {
 		return "not-sign1", "payload content is not exactly one CBOR item: " + err.Error()
 	}
 	if p.Kind == icbor.KTag {
-		return "no-verdict", "payload item is tagged"
+		// tags around a MAP carry no verdict (see C04's tagged-item carve-out);
+		// a tagged anything-else is still not a claims map
+		inner := p
+		for inner.Kind == icbor.KTag {
+			inner = inner.Items[0]
+		}
+		if inner.Kind == icbor.KMap {
+			return "no-verdict", "payload item is a tagged map"
+		}
+		return "not-sign1", "payload item is a tagged " + inner.Kind.String() + ", not a map"
 	}
 	if p.Kind != icbor.KMap {
 		return "not-sign1", "payload item is a " + p.Kind.String() + ", not a map"
@@ -120,7 +129,7 @@ func c20Replacements() []struct {
 }
 
 func TestC20_EnvelopeGrid(t *testing.T) {
-	st := NewStats("C20", "TestC20_EnvelopeGrid", "enumeration with the independent encoder around correctly signed material (7 algorithms in thorough, EdDSA+ES256 in quick; both profiles): tag in {none, 0..30, 61, 98, 18 nested twice} x array length 0..6; each of the four elements replaced by 20 other CBOR items and by indefinite-length / over-long-head forms; 2-element replacement pairs; 14 payload variants (raw map, double-wrapped, null, h'', h'f6', h'f7', array, int, text, tagged map, map+trailing, two maps, truncated map); 0..3 trailing bytes; non-minimal tag/array heads; the TF-M Mac0 and Sign1 vectors and their tag-swapped variants. Oracle: DecodeEvidenceFromCOSE / UnmarshalCOSE success implies the independent classifier sees tag 18, 4-array, bstr, map, bstr holding exactly one map item, non-empty bstr, no trailing bytes. Non-trivial = still parses as CBOR and differs from a valid envelope in exactly one structural respect; distinct = grid cell")
+	st := NewStats("C20", "TestC20_EnvelopeGrid", "enumeration with the independent encoder around correctly signed material (7 algorithms in thorough, EdDSA+ES256 in quick; both profiles): tag in {none, 0..30, 61, 98, 18 nested twice} x array length 0..6; each of the four elements replaced by 20 other CBOR items and by indefinite-length / over-long-head forms; 2-element replacement pairs; 18 payload variants (raw map, double-wrapped, null, h'', h'f6', h'f7', array, int, text, tagged map, map+trailing, two maps, truncated map, ...) plus 19 tag numbers of every head width (incl. numbers whose last byte looks like a map head) x 8 tagged contents (null, undefined, array, int, bstr, text, map, tagged null); 0..3 trailing bytes; non-minimal tag/array heads; the TF-M Mac0 and Sign1 vectors and their tag-swapped variants. Oracle: DecodeEvidenceFromCOSE / UnmarshalCOSE success implies the independent classifier sees tag 18, 4-array, bstr, map, bstr holding exactly one map item, non-empty bstr, no trailing bytes. Non-trivial = still parses as CBOR and differs from a valid envelope in exactly one structural respect; distinct = grid cell")
 	st.Exhaustive = true
 	st.Require = []string{"accepted", "rejected", "tag", "arity", "element", "payload", "trailing", "vector"}
 	defer st.Flush(t)
@@ -258,6 +267,19 @@ func TestC20_EnvelopeGrid(t *testing.T) {
 				{"bstr-true", icbor.Bstr([]byte{0xf5})},
 				{"bstr-float", icbor.Bstr(icbor.Encode(icbor.F64(1)))},
 				{"bstr-bstr-null", icbor.Bstr(icbor.Encode(icbor.Bstr([]byte{0xf6})))},
+			}
+			// tagged payload items: every tag-number width, incl. numbers whose
+			// last head byte looks like a map head (0xa0..0xbf)
+			for _, tg := range []uint64{0, 1, 6, 23, 24, 0xa0, 0xa5, 0xbf, 0xff, 0x100, 0x1a0, 0xa000, 0xbfbf, 55799, 0x10000, 0xa0a0a0a0, 0xffffffff, 0x1000000a0, 1<<64 - 1} {
+				for _, in := range []struct {
+					name string
+					n    *icbor.Node
+				}{{"null", icbor.Null()}, {"undefined", icbor.Undef()}, {"array", icbor.Arr(claimsNode)}, {"int", icbor.U(0xa0)}, {"bstr", icbor.Bstr(claims)}, {"text", icbor.Tstr("claims")}, {"map", claimsNode}, {"tag-null", icbor.Tag(0xa0, icbor.Null())}} {
+					pv = append(pv, struct {
+						name string
+						raw  *icbor.Node
+					}{fmt.Sprintf("bstr-tag%d(%s)", tg, in.name), icbor.Bstr(icbor.Encode(icbor.Tag(tg, in.n)))})
+				}
 			}
 			for _, v := range pv {
 				e := elems()
